@@ -23,18 +23,19 @@ Definition set_eqb (a b : list entity) : bool :=
 
 (** ** what the harness reads back through the public observers at chosen points of a run *)
 (** [state(t)], [start_epoch(t)], [isolation_level(t)], [get_write_set(t)] of one probed id *)
-Inductive entry := Entry (t : Z) (info : option (tstate * Z * iso * list entity)).
+Inductive entry :=
+| EntryNone (t : Z)                                                    (* [state(t)] = None *)
+| EntrySome (t : Z) (x : tstate) (start : Z) (lvl : iso) (ws : list entity).
 (** after [at_] operations: [current_epoch], [active_count], [min_active_epoch], probed ids *)
 Inductive dump := Dump (at_ : nat) (cur active minact : Z) (entries : list entry).
 
 Definition entry_ok (s : st) (en : entry) : bool :=
   match en with
-  | Entry t info =>
-      match lookup t (txs s), info with
-      | None, None => true
-      | Some i, Some (x, start, lvl, ws) =>
-          tstate_eqb (t_state i) x && (t_start i =? start) && iso_eqb (t_iso i) lvl && set_eqb (t_ws i) ws
-      | _, _ => false
+  | EntryNone t => match lookup t (txs s) with None => true | Some _ => false end
+  | EntrySome t x start lvl ws =>
+      match lookup t (txs s) with
+      | Some i => tstate_eqb (t_state i) x && (t_start i =? start) && iso_eqb (t_iso i) lvl && set_eqb (t_ws i) ws
+      | None => false
       end
   end.
 Definition dump_ok (ops : list op) (d : dump) : bool :=
@@ -91,14 +92,16 @@ Inductive sop :=
 | SSet (t : Z) (e : entity)
 | SGet (t : Z) (e : entity)
 | SCommit (t : Z)
-| SRollback (t : Z).
+| SRollback (t : Z)
+| SRefused.   (* begin on a session that has a transaction open, commit/rollback on one that has
+                 none: refused by the session itself (InvalidState), nothing reaches the manager *)
 
 (** what reaches the transaction manager: nothing on the query path calls [record_write] or
     [record_read] (DESIGN §0(d)); [Session::commit]/[rollback] call [commit]/[abort] *)
 Definition actual (o : sop) : list op :=
   match o with
   | SBegin i => [Begin i]
-  | SSet _ _ | SGet _ _ => []
+  | SSet _ _ | SGet _ _ | SRefused => []
   | SCommit t => [Commit t]
   | SRollback t => [Abort t]
   end.
@@ -110,10 +113,11 @@ Definition intended (o : sop) : list op :=
   | SGet t e => [Read t e]
   | SCommit t => [Commit t]
   | SRollback t => [Abort t]
+  | SRefused => []
   end.
 
 (** result kinds seen at the session API (no ids, no epochs) *)
-Inductive skind := SOk | SErr (k : errkind).
+Inductive skind := SOk | SErr (k : errkind) | SOther.   (* SOther: an error kind the model never answers *)
 Definition kind_of (x : out) : skind := match x with Err k => SErr k | _ => SOk end.
 Definition skind_eqb (a b : skind) : bool :=
   match a, b with SOk, SOk => true | SErr x, SErr y => err_eqb x y | _, _ => false end.
@@ -128,7 +132,7 @@ Definition sess_model_kinds (sops : list sop) : list skind :=
      | [] => []
      | o :: l' =>
          match actual o, xs with
-         | [], _ => SOk :: go l' xs
+         | [], _ => (match o with SRefused => SErr InvalidState | _ => SOk end) :: go l' xs
          | _ :: _, x :: xs' => kind_of x :: go l' xs'
          | _ :: _, [] => []
          end
@@ -146,6 +150,7 @@ Fixpoint sess_evs (f : sop -> list op) (n next : Z) (sops : list sop) (ks : list
       | SCommit t, SOk => map (fun x => (x, OkEpoch (n + 1))) (f o) ++ sess_evs f (n + 1) next l ks'
       | _, SOk => map (fun x => (x, OkUnit)) (f o) ++ sess_evs f n next l ks'
       | _, SErr e => map (fun x => (x, Err e)) (f o) ++ sess_evs f n next l ks'
+      | _, SOther => sess_evs f n next l ks'
       end
   | _, _ => []
   end.
